@@ -292,6 +292,9 @@ void vec(vf::Draw &d, vf::Ctx &ctx) {
     snprintf(w, sizeof w, "scalar %s vec", nm); if (OP == 4) chk(w, s + va, sb, a); else if (OP == 5) chk(w, s - va, sb, a); else chk(w, s * va, sb, a);
     { V v(a, false); if (OP == 4) v += vb; else if (OP == 5) v -= vb; else v *= vb; snprintf(w, sizeof w, "vec %s= vec", nm); chk(w, v, a, b); }
     { V v(a, false); if (OP == 4) v += s; else if (OP == 5) v -= s; else v *= s; snprintf(w, sizeof w, "vec %s= scalar", nm); chk(w, v, a, sb); }
+    // in-place form whose operand is the vector itself: an implementation that overwrites a component and then reads it back through the
+    // (aliasing) operand reference is lane-wise wrong only here
+    { V v(a, false); V &al = v; if (OP == 4) v += al; else if (OP == 5) v -= al; else v *= al; snprintf(w, sizeof w, "vec %s= itself", nm); chk(w, v, a, a); }
   }
 
   else if constexpr (OP == 7) {
@@ -313,6 +316,7 @@ void vec(vf::Draw &d, vf::Ctx &ctx) {
       if constexpr (has_div_s<V>::value) chk("vec / scalar", va / s, a, sb);
       if constexpr (has_s_div<V>::value) { T sa[S + 1]; for (size_t i = 0; i < S; ++i) sa[i] = a[0]; chk("scalar / vec", a[0] / vb, sa, b); }
       if constexpr (has_diveq<V>::value) { V v(a, false); v /= vb; chk("vec /= vec", v, a, b); }
+      if constexpr (has_diveq<V>::value) { V v(b, false); V &al = v; v /= al; chk("vec /= itself", v, b, b); }
       if constexpr (has_diveq_s<V>::value) { V v(a, false); v /= s; chk("vec /= scalar", v, a, sb); }
     } else { ctx.label("absent:div"); }
   }
